@@ -69,6 +69,9 @@ def install(eng: Any) -> None:  # noqa: C901
             return total
         if isinstance(v, Opaque):
             return Opaque("len of unmodelled value")
+        hook = getattr(v, "_pyvc_len", None)                # (additive) theory-backed collections, vc.pycoll
+        if hook is not None:
+            return hook(e)
         raise OutsideSubset(f"len of {type(v).__name__}")
 
     def py_isinstance(e: Any, v: Any, cls: Any) -> Any:
@@ -146,13 +149,24 @@ def install(eng: Any) -> None:  # noqa: C901
     def py_abs(e: Any, v: Any) -> Any:
         return Ite(smt.Ge(v, 0), v, smt.Neg(v))
 
+    def _convert(e: Any, v: Any, target: str) -> Any:
+        """(additive) theory-backed collections (vc.pycoll) convert themselves: set(x) / list(x) / dict(x) / sorted(x)."""
+        hook = getattr(v, "_pyvc_convert", None)
+        return hook(e, target) if hook is not None else None
+
     def py_set(e: Any, v: Any = ()) -> Any:
         if isinstance(v, SymSet):
             return v.copy()
+        c = _convert(e, v, "set")
+        if c is not None:
+            return c
         from .pyvc import Frame
         return set(Frame(e, "", {}, None).iterate(v))
 
     def py_list(e: Any, v: Any = ()) -> Any:
+        c = _convert(e, v, "list")
+        if c is not None:
+            return c
         from .pyvc import Frame
         return list(Frame(e, "", {}, None).iterate(v))
 
@@ -162,6 +176,9 @@ def install(eng: Any) -> None:  # noqa: C901
 
     def py_dict(e: Any, v: Any = None, **kw: Any) -> Any:
         d: Dict[Any, Any] = {}
+        c = _convert(e, v, "dict") if v is not None and not kw else None
+        if c is not None:
+            return c
         if isinstance(v, dict):
             d.update(v)
         elif v is not None:
@@ -173,6 +190,9 @@ def install(eng: Any) -> None:  # noqa: C901
 
     def py_sorted(e: Any, v: Any, key: Any = None, reverse: Any = False) -> Any:
         from .pyvc import Frame
+        c = _convert(e, v, "sorted") if key is None else None
+        if c is not None:
+            return c
         xs = Frame(e, "", {}, None).iterate(v)
         if key is not None or any(is_sym(x) for x in xs):
             raise OutsideSubset("sorted with key / symbolic elements")
